@@ -228,6 +228,39 @@ var kindSM2 = kind{name: "sm2-key", setup: newSM2Obj, ops: []op{
 		}
 		return hx(ct), nil
 	}},
+	{"legacy-sign-two-keys", false, func(obj any, g, i int, seed uint64) (string, error) {
+		// the package-level r/s entry points, used at once with two different shared
+		// keys: any state kept between calls (a memo of "the" key, a scratch buffer)
+		// makes one goroutine sign with the other's key
+		o := obj.(*sm2Obj)
+		key, pub := o.priv, o.pub
+		if (g+i)%2 == 1 {
+			key, pub = o.peer, o.peerPub
+		}
+		hash := gen.Fill(gen.Mix(seed, 103, uint64(g), uint64(i)), 32)
+		r, s, err := sm2.Sign(rnd(seed, g, 2*i), &key.PrivateKey, hash)
+		if err != nil {
+			return "", err
+		}
+		if !sm2.Verify(pub, hash, r, s) {
+			return "", fmt.Errorf("sm2.Sign under concurrency: signature does not verify under the requested key")
+		}
+		r2, s2, err := sm2.SignWithSM2(rnd(seed, g, 2*i+1), &key.PrivateKey, o.uidA, hash)
+		if err != nil {
+			return "", err
+		}
+		if !sm2.VerifyWithSM2(pub, o.uidA, hash, r2, s2) {
+			return "", fmt.Errorf("sm2.SignWithSM2 under concurrency: signature does not verify under the requested key")
+		}
+		sig, err := sm2.SignASN1(rnd(seed, g, 2*i), key, hash, nil)
+		if err != nil {
+			return "", err
+		}
+		if !sm2.VerifyASN1(pub, hash, sig) {
+			return "", fmt.Errorf("SignASN1 under concurrency: signature does not verify under the requested key")
+		}
+		return r.Text(16) + "/" + s.Text(16) + "/" + r2.Text(16) + "/" + hx(sig), nil
+	}},
 	{"ecdh-convert", false, func(obj any, g, i int, seed uint64) (string, error) {
 		o := obj.(*sm2Obj)
 		k, err := o.priv.ECDH()
@@ -322,6 +355,8 @@ type sm9SignObj struct {
 	master *sm9.SignMasterPrivateKey
 	pub    *sm9.SignMasterPublicKey
 	user   *sm9.SignPrivateKey
+	pub2   *sm9.SignMasterPublicKey // a second, unrelated master key and user key
+	user2  *sm9.SignPrivateKey
 	uid    []byte
 	uidB   []byte
 	hash   []byte
@@ -334,6 +369,9 @@ var kindSM9Sign = kind{name: "sm9-sign-key", setup: func(seed uint64) any {
 	// a public key object of its own, parsed from bytes: cold caches
 	o.pub = must(sm9.UnmarshalSignMasterPublicKeyRaw(o.master.PublicKey().Bytes()))
 	o.user = must(o.master.GenerateUserKey(o.uid, 1))
+	mOther := must(sm9.GenerateSignMasterKey(gen.NewDetReader(gen.Mix(seed, 7))))
+	o.pub2 = must(sm9.UnmarshalSignMasterPublicKeyRaw(mOther.PublicKey().Bytes()))
+	o.user2 = must(mOther.GenerateUserKey(o.uidB, 1))
 	// signature made with an independent copy
 	m2 := must(sm9.GenerateSignMasterKey(gen.NewDetReader(gen.Mix(seed, 1))))
 	u2 := must(m2.GenerateUserKey(o.uid, 1))
@@ -359,6 +397,18 @@ var kindSM9Sign = kind{name: "sm9-sign-key", setup: func(seed uint64) any {
 		bad := sm9.VerifyASN1(o.pub, o.uidB, 1, o.hash, o.sig)
 		return fmt.Sprint(ok, bad), nil
 	}},
+	{"sign-other-master", true, func(obj any, g, i int, seed uint64) (string, error) {
+		o := obj.(*sm9SignObj)
+		hash := gen.Fill(gen.Mix(seed, 201, uint64(g), uint64(i)), 32)
+		sig, err := sm9.SignASN1(rnd(seed, g, i), o.user2, hash)
+		if err != nil {
+			return "", err
+		}
+		if !sm9.VerifyASN1(o.pub2, o.uidB, 1, hash, sig) || sm9.VerifyASN1(o.pub, o.uidB, 1, hash, sig) {
+			return "", fmt.Errorf("SM9 signature by the second key: verifies under the wrong master key or not under its own")
+		}
+		return hx(sig), nil
+	}},
 	{"verify-via-master", true, func(obj any, g, i int, seed uint64) (string, error) {
 		o := obj.(*sm9SignObj)
 		return fmt.Sprint(o.master.PublicKey().Verify(o.uid, 1, o.hash, o.sig)), nil
@@ -379,6 +429,8 @@ type sm9EncObj struct {
 	pub    *sm9.EncryptMasterPublicKey
 	user   *sm9.EncryptPrivateKey
 	peer   *sm9.EncryptPrivateKey
+	pub2   *sm9.EncryptMasterPublicKey // a second, unrelated master key and user key
+	user2  *sm9.EncryptPrivateKey
 	userKX *sm9.EncryptPrivateKey // hid 2 keys for the key exchange
 	peerKX *sm9.EncryptPrivateKey
 	uid    []byte
@@ -394,6 +446,9 @@ var kindSM9Enc = kind{name: "sm9-encrypt-key", setup: func(seed uint64) any {
 	o.pub = must(sm9.UnmarshalEncryptMasterPublicKeyRaw(o.master.PublicKey().Bytes()))
 	o.user = must(o.master.GenerateUserKey(o.uid, 3))
 	o.peer = must(o.master.GenerateUserKey(o.uidB, 3))
+	mOther := must(sm9.GenerateEncryptMasterKey(gen.NewDetReader(gen.Mix(seed, 7))))
+	o.pub2 = must(sm9.UnmarshalEncryptMasterPublicKeyRaw(mOther.PublicKey().Bytes()))
+	o.user2 = must(mOther.GenerateUserKey(o.uid, 3))
 	o.userKX = must(o.master.GenerateUserKey(o.uid, 2))
 	o.peerKX = must(o.master.GenerateUserKey(o.uidB, 2))
 	m2 := must(sm9.GenerateEncryptMasterKey(gen.NewDetReader(gen.Mix(seed, 1))))
@@ -412,6 +467,21 @@ var kindSM9Enc = kind{name: "sm9-encrypt-key", setup: func(seed uint64) any {
 		k2, err := sm9.UnwrapKey(o.user, o.uid, c, 48)
 		if err != nil || !bytes.Equal(k, k2) {
 			return "", fmt.Errorf("key wrapped concurrently does not unwrap: %v", err)
+		}
+		return hx(k) + "/" + hx(c), nil
+	}},
+	{"wrap-other-master", true, func(obj any, g, i int, seed uint64) (string, error) {
+		o := obj.(*sm9EncObj)
+		k, c, err := sm9.WrapKey(rnd(seed, g, i), o.pub2, o.uid, 3, 40)
+		if err != nil {
+			return "", err
+		}
+		k2, err := sm9.UnwrapKey(o.user2, o.uid, c, 40)
+		if err != nil || !bytes.Equal(k, k2) {
+			return "", fmt.Errorf("key wrapped for the second master key does not unwrap: %v", err)
+		}
+		if k3, err := sm9.UnwrapKey(o.user, o.uid, c, 40); err == nil && bytes.Equal(k, k3) {
+			return "", fmt.Errorf("key wrapped for the second master key unwraps under the first")
 		}
 		return hx(k) + "/" + hx(c), nil
 	}},
@@ -477,6 +547,8 @@ type sm4Obj struct {
 	gcm    cipher.AEAD
 	gcm13  cipher.AEAD
 	ccm    cipher.AEAD
+	block2 cipher.Block // another key, used at the same time
+	gcm2   cipher.AEAD
 	key    []byte
 	aad    []byte
 	nonce  []byte
@@ -489,6 +561,8 @@ var kindSM4 = kind{name: "sm4-block-aead", setup: func(seed uint64) any {
 	o.gcm = must(cipher.NewGCM(o.block))
 	o.gcm13 = must(cipher.NewGCMWithTagSize(o.block, 13))
 	o.ccm = must(gmcipher.NewCCM(o.block))
+	o.block2 = must(sm4.NewCipher(gen.Fill(gen.Mix(seed, 9), 16)))
+	o.gcm2 = must(cipher.NewGCM(o.block2))
 	o.aad = shared(gen.Fill(gen.Mix(seed, 2), 21))
 	o.nonce = shared(gen.Fill(gen.Mix(seed, 3), 12))
 	// sealed with an independent cipher object
@@ -553,6 +627,27 @@ var kindSM4 = kind{name: "sm4-block-aead", setup: func(seed uint64) any {
 			res += hx(ct) + "/"
 		}
 		return res, nil
+	}},
+	{"second-key", false, func(obj any, g, i int, seed uint64) (string, error) {
+		o := obj.(*sm4Obj)
+		n := 16 * (1 + (g+5*i)%12)
+		in := gen.Fill(gen.Mix(seed, 406, uint64(g), uint64(i)), n)
+		out := make([]byte, n)
+		gmcipher.NewECBEncrypter(o.block2).CryptBlocks(out, in)
+		back := make([]byte, n)
+		gmcipher.NewECBDecrypter(o.block2).CryptBlocks(back, out)
+		if !bytes.Equal(back, in) {
+			return "", fmt.Errorf("ECB round trip with the second key failed under concurrency")
+		}
+		nonce := gen.Fill(gen.Mix(seed, 407, uint64(g), uint64(i)), 12)
+		ct := o.gcm2.Seal(nil, nonce, in, o.aad)
+		if _, err := o.gcm.Open(nil, nonce, ct, o.aad); err == nil {
+			return "", fmt.Errorf("GCM message sealed under the second key opens under the first")
+		}
+		if pt, err := o.gcm2.Open(nil, nonce, ct, o.aad); err != nil || !bytes.Equal(pt, in) {
+			return "", fmt.Errorf("GCM round trip with the second key failed under concurrency: %v", err)
+		}
+		return hx(out[:16]) + hx(ct[len(ct)-16:]), nil
 	}},
 	{"open-shared", false, func(obj any, g, i int, seed uint64) (string, error) {
 		// every goroutine opens the same ciphertext slices with the same nonce and aad slices
@@ -666,15 +761,19 @@ var kindHashCtor = kind{name: "hash-constructors", setup: func(seed uint64) any 
 // ---------------------------------------------------------------- cert pool
 
 type poolObj struct {
-	pool   *smx509.CertPool
-	leaves []*smx509.Certificate
-	at     time.Time
+	pool       *smx509.CertPool
+	leaves     []*smx509.Certificate
+	extraRoots []*smx509.Certificate // further roots with the SAME subject as three roots in the pool
+	extraLeaf  []*smx509.Certificate // leaves signed by them
+	at         time.Time
 }
 
 var (
-	pkiOnce sync.Once
-	pkiPEM  []byte   // roots + intermediates as PEM (parsed lazily by the pool)
-	pkiLeaf [][]byte // leaf DER
+	pkiOnce  sync.Once
+	pkiPEM   []byte   // roots + intermediates as PEM (parsed lazily by the pool)
+	pkiLeaf  [][]byte // leaf DER
+	pkiXRoot [][]byte // extra same-subject roots, not in the shared pool
+	pkiXLeaf [][]byte
 )
 
 func buildPKI() {
@@ -700,6 +799,23 @@ func buildPKI() {
 				pkiLeaf = append(pkiLeaf, mk(fmt.Sprintf("leaf%d-%d", ri, li), false, &lk.PublicKey, root, rk, int64(100+10*ri+li)))
 			}
 		}
+		// a re-keyed CA: five roots with one subject; three go into the shared pool
+		// (their per-subject index then has spare capacity), two are added by the
+		// goroutines to private clones
+		for ri := 0; ri < 5; ri++ {
+			rk := must(sm2.GenerateKey(r))
+			rootDER := mk("rekeyed", true, &rk.PublicKey, nil, rk, int64(500+ri))
+			root := must(smx509.ParseCertificate(rootDER)).ToX509()
+			lk := must(sm2.GenerateKey(r))
+			leaf := mk(fmt.Sprintf("rekeyed-leaf%d", ri), false, &lk.PublicKey, root, rk, int64(600+ri))
+			if ri < 3 {
+				pkiPEM = append(pkiPEM, pem.EncodeToMemory(&pem.Block{Type: "CERTIFICATE", Bytes: rootDER})...)
+				pkiLeaf = append(pkiLeaf, leaf)
+			} else {
+				pkiXRoot = append(pkiXRoot, rootDER)
+				pkiXLeaf = append(pkiXLeaf, leaf)
+			}
+		}
 	})
 }
 
@@ -712,6 +828,10 @@ var kindPool = kind{name: "cert-pool", setup: func(seed uint64) any {
 	for _, l := range pkiLeaf {
 		o.leaves = append(o.leaves, must(smx509.ParseCertificate(l)))
 	}
+	for i := range pkiXRoot {
+		o.extraRoots = append(o.extraRoots, must(smx509.ParseCertificate(pkiXRoot[i])))
+		o.extraLeaf = append(o.extraLeaf, must(smx509.ParseCertificate(pkiXLeaf[i])))
+	}
 	return o
 }, ops: []op{
 	{"verify-leaf", true, func(obj any, g, i int, seed uint64) (string, error) {
@@ -722,6 +842,31 @@ var kindPool = kind{name: "cert-pool", setup: func(seed uint64) any {
 			return "", fmt.Errorf("Verify of a good leaf failed under concurrency: %v", err)
 		}
 		return fmt.Sprint(len(chains), len(chains[0]), chains[0][len(chains[0])-1].Subject.CommonName), nil
+	}},
+	{"clone-add-verify", true, func(obj any, g, i int, seed uint64) (string, error) {
+		// every goroutine extends a PRIVATE clone of the shared pool: clones must not
+		// share anything writable with the source or with each other
+		o := obj.(*poolObj)
+		c := o.pool.Clone()
+		k := (g + i) % len(o.extraRoots)
+		res := ""
+		for j := 0; j <= (g+i)%2; j++ { // clones holding different numbers of certificates
+			x := (k + j) % len(o.extraRoots)
+			c.AddCert(o.extraRoots[x])
+			chains, err := o.extraLeaf[x].Verify(smx509.VerifyOptions{Roots: c, CurrentTime: o.at})
+			if err != nil {
+				return "", fmt.Errorf("leaf of a root added to a private clone does not verify against that clone: %v", err)
+			}
+			res += fmt.Sprint(len(chains), chains[0][len(chains[0])-1].SerialNumber) + ";"
+		}
+		if _, err := o.extraLeaf[k].Verify(smx509.VerifyOptions{Roots: o.pool, CurrentTime: o.at}); err == nil {
+			return "", fmt.Errorf("a certificate added to a clone became trusted in the shared pool")
+		}
+		leaf := o.leaves[(g*7+i)%len(o.leaves)]
+		if _, err := leaf.Verify(smx509.VerifyOptions{Roots: c, CurrentTime: o.at}); err != nil {
+			return "", fmt.Errorf("a leaf of the shared pool does not verify against the clone: %v", err)
+		}
+		return res + fmt.Sprint(len(c.Subjects())), nil
 	}},
 	{"pool-read", true, func(obj any, g, i int, seed uint64) (string, error) {
 		o := obj.(*poolObj)
